@@ -82,6 +82,8 @@ def build_text(fd, seed):
             aid += 1
     box = BOX9 if num in ('wrap', 'digit') else BOX3
     title = 'c12 ' + (fd.get('big') or ','.join(kinds)) + ' ' + num
+    if num == 'const':
+        title = '   '                 # a title of blanks only
     text = '\n'.join([title, f'{aid:5d}'] + lines + [' '.join(f'{x:9.5f}' for x in box)]) + '\n'
     return text, sizes
 
